@@ -23,7 +23,7 @@ KF_CHAIN = "returned-pair-with-chained-equivalence-steps-rejected-by-Isomorphism
 KF_EQCHILD = "eqpath-finder-does-not-compare-equivalence-paths-of-children-of-two-assigned-labels"
 
 RULE = (
-    "three streams. (word) pairs of REAL searchers over the word universes (24 start classes incl. two empty ones x "
+    "three streams. (word) pairs of REAL searchers over the word universes (28 start classes incl. two empty ones x "
     "packs with symmetries, inferral, one-way unary rules, letterwise products, two expansion sets; RuleDB, rarely a "
     "forest database; 0-2 levels of pre-expansion), both finder variants, find() as the user calls it. (reg) pairs of "
     "REAL searchers over regular-language universes with tagged copies (harness/universes/reglang.py: random partial "
@@ -73,7 +73,23 @@ ASSUMPTIONS = [
     "C13_universe_well_formed / C13_two_rule_sets assume that verification rules have no children (atoms are "
     "verified by AtomStrategy)",
     "the EqPath theorems quantify over every oracle that answers all questions of _eq_path_matches; the real answers "
-    "come from EquivalenceRuleExtractor, outside the model",
+    "come from EquivalenceRuleExtractor, outside the model; C13_matched_pair_eqpath_with_paths assumes the CONTRACT of "
+    "those answers (True only if the non-equivalence rules on the two equivalence paths match pairwise) as an abstract "
+    "predicate: EquivalenceRuleExtractor itself is not modelled",
+    "PRECONDITION of the base variant (its class docstring: 'This version assumes that any classes that share "
+    "equivalence labels are in fact equivalent'): every unary rule of the rule database that joins two classes of one "
+    "equivalence class is an equivalence rule (rule.is_equivalence()); universes with a two-way unary rule whose "
+    "strategy says can_be_equivalent() False (or one-way non-equivalence rules on a cycle) are OUTSIDE it - there "
+    "ParallelSpecFinder is still required to be total and to return valid specifications whose label maps are a "
+    "matched pair (theorem C13_matched_pair; oracle), but the two SPECIFICATIONS need not be isomorphic (replayed: "
+    "findings/triage2/C13/repro.py); the generator offers such universes to the base variant in 17% of its random reg "
+    "cases, tagged base_outside, the run decides the precondition (res['noneq_inside']) and the oracle gives those "
+    "pairs the verdict 'outside-precondition' instead of a violation; EqPathParallelSpecFinder is judged in full on "
+    "all universes. properties.jsonl says 'all packs, both finder variants' without this restriction (proposed "
+    "rewording: findings/triage2/C13/verdict.md)",
+    "the recursion budget of the model is computed by the model from the two universes (Parallel/Fuel.v: run_fuel, "
+    "run_wfuel, at least the proved termination bounds: C13_harness_never_out_of_fuel); the number the harness sends "
+    "is only a lower bound",
 ]
 
 
@@ -133,9 +149,12 @@ def _gen_reg(rng, directed=False):
         u1["start"] = ["", 0, 0]
         u2["start"] = ["", 0, 0]
     else:
-        # unary rules that join two classes without being equivalence rules: only for the variant that
-        # is meant for them (ParallelSpecFinder documents that it assumes there are none)
-        ne = variant == 1 and rng.random() < 0.5
+        # unary rules that join two classes without being equivalence rules: half of the cases of the variant
+        # that is meant for them; one case in six of the base variant, whose class docstring says "This version
+        # assumes that any classes that share equivalence labels are in fact equivalent": those pairs are OUTSIDE
+        # its documented precondition (findings/triage2/C13/verdict.md).  They are tagged ("base_outside") and
+        # judged by the oracle on everything except isomorphism of the two specifications (see oracle()).
+        ne = rng.random() < (0.5 if variant == 1 else 0.17)
         u1 = R.random_universe(rng, noneq=ne)
         if rng.random() < 0.7:
             dfa = {k: u1[k] for k in ("alphabet", "delta", "final")}
@@ -149,13 +168,19 @@ def _gen_reg(rng, directed=False):
                     u2["start"][1] = 0
         else:
             u2 = R.random_universe(rng, noneq=ne)
-    return {
+    case = {
         "kind": "reg",
         "variant": variant,
         "u1": u1,
         "u2": u2,
         "pre": [rng.choice([0, 0, 1, 2, 99]), rng.choice([0, 0, 1, 2, 99])],
     }
+    if variant == 0 and any(len(r) > 3 and r[3] for u in (u1, u2) for r in u.get("retag", [])):
+        # the generator's tag: a pack with a two-way unary strategy that says can_be_equivalent() False is
+        # offered to the base variant (whether such a rule really ends up inside an equivalence class of the
+        # expanded universe is decided on the run: res["noneq_inside"])
+        case["base_outside"] = 1
+    return case
 
 
 def _abs_side(rng, n, natoms, maxr, maxar, kinds, odd):
@@ -466,6 +491,27 @@ def _keys_from_spec(spec, css):
     return sorted([p, ch] for p, ch in keys.items()), conflict
 
 
+def _noneq_inside(css):
+    """the unary rules of the rule database that join two classes of ONE equivalence class without being
+    equivalence rules (rule.is_equivalence() False): two-way rules whose strategy says can_be_equivalent()
+    False, and one-way rules on a cycle.  ParallelSpecFinder (the base variant) documents that it assumes
+    there are none ("any classes that share equivalence labels are in fact equivalent");
+    EqPathParallelSpecFinder exists for universes that have some."""
+    db, classdb = css.ruledb, css.classdb
+    bad = []
+    cands = [(k, st) for k, st in list(db.eqv_rule_to_strategy.items())]
+    cands += [(k, st) for k, st in list(db.rule_to_strategy.items())
+              if len(k[1]) == 1 and db.are_equivalent(k[0], k[1][0])]
+    for (start, ends), strat in cands:
+        try:
+            rule = strat(classdb.get_class(start))
+            if not rule.is_equivalence():
+                bad.append([start, list(ends)])
+        except Exception:  # pylint: disable=broad-except
+            bad.append([start, list(ends), "?"])
+    return bad
+
+
 REFUSALS = ("No specifications were found", "Only atoms can be verified.", "Only searcher supported rule db")
 
 
@@ -518,6 +564,7 @@ def _impl_real(case):
     finder = (RecEq if case["variant"] else RecBase)(s1, s2)
     res["sides"], _ = _sides_of(finder, cls)
     res["fuel"] = _fuel(res["sides"])
+    res["noneq_inside"] = [_noneq_inside(s1), _noneq_inside(s2)]
     try:
         specs = finder.find()
     except Exception as e:  # pylint: disable=broad-except
@@ -1041,8 +1088,19 @@ def oracle(case, res):
                 return "specification %d is not valid for its start class: %s" % (i + 1, v)
         why = None
         if not res["iso"]["structural"]:
+            pc = _pair_check(res["sides"], out[1], out[2])
+            if _base_outside(case, res) and pc is None:
+                # VERDICT "outside the documented precondition of the base variant", not a violation and not a
+                # finding: ParallelSpecFinder's docstring assumes that classes sharing an equivalence label are
+                # equivalent; here a unary NON-equivalence rule lies inside an equivalence class, so the
+                # label-level matched pair (required and established above the line: validity of both
+                # specifications; here: pc is None) does not extend to the specifications.  Everything else
+                # (no exception, both specifications valid, label maps a matched pair, model = code) stays
+                # binding.  The same pair under the EqPath variant IS judged in full.
+                res["verdict"] = "outside-precondition:base-variant-nonisomorphic"
+                return None
             why = "the two specifications are not isomorphic (bisimulation of the specifications fails; label maps: %s)" % (
-                _pair_check(res["sides"], out[1], out[2]) or "matched")
+                pc or "matched")
     if why:
         unjust, other = _shortcut_diagnosis(res["sides"], res["maps"], res["mi"])
         tag = ""
@@ -1078,6 +1136,11 @@ def oracle(case, res):
         if failures:
             return failures[0]
     return None
+
+
+def _base_outside(case, res):
+    """the base variant run on a universe that violates its documented precondition"""
+    return case.get("variant") == 0 and any(res.get("noneq_inside") or [[], []])
 
 
 def finding_match(case, why):
@@ -1126,15 +1189,59 @@ def classify(case, res):
             s = res["sides"]
             if any(side[0] != st for side, st in zip(s, res.get("start_labels", [None, None])) if st is not None):
                 tags.append("start label is not its representative")
+        if (case["kind"] != "abs" and _base_outside(case, res)
+                and not res.get("iso", {}).get("structural", True)):
+            tags.append("VERDICT outside-precondition: base variant returned a non-isomorphic pair on a universe "
+                        "violating its documented assumption (not a violation, not a finding)")
         if res.get("log"):
             tags.append("eq-path oracle consulted")
     elif isinstance(out, list) and out and out[0] == 0:
         tags.append("nothing found")
+    if any(res.get("noneq_inside") or [[], []]):
+        tags.append("non-equivalence unary rule inside an equivalence class (%s)" % (
+            "base variant: OUTSIDE its documented precondition" if not case.get("variant") else "eqpath variant: in scope"))
+    if case.get("base_outside"):
+        tags.append("gen: base_outside")
     if res.get("sides"):
         m = max(len(rs) for side in res["sides"] for _, rs in side[2]) if any(side[2] for side in res["sides"]) else 0
         if m >= 2:
             tags.append("several candidate rules for a label")
     return tags
+
+
+def extra_checks(ctx):
+    """coverage floors (measured on the quick tier, seed 0: 1891 / 621 / 403 / 50; floors at about a quarter):
+    the clauses 'start classes that are equivalent to other classes' and 'both finder variants' on universes
+    with non-equivalence unary rules must really be reached, and the base variant's outside-precondition
+    verdict must really be exercised (otherwise the tag would hide nothing and prove nothing)."""
+    out = []
+    n = len(ctx.cases)
+    if n < 15000:
+        return out
+    tally = {"startrep": 0, "eq_noneq": 0, "base_noneq": 0, "verdict": 0}
+    for case, entry in zip(ctx.cases, ctx.impl_res):
+        res = entry[0] if isinstance(entry, (tuple, list)) else entry
+        if not isinstance(res, dict):
+            continue
+        for t in classify(case, res):
+            if t == "start label is not its representative":
+                tally["startrep"] += 1
+            elif t.startswith("non-equivalence unary rule inside") and "eqpath variant" in t:
+                tally["eq_noneq"] += 1
+            elif t.startswith("non-equivalence unary rule inside") and "base variant" in t:
+                tally["base_noneq"] += 1
+            elif t.startswith("VERDICT outside-precondition"):
+                tally["verdict"] += 1
+    scale = n / 18000.0
+    for key, floor, what in (
+        ("startrep", 450, "found pairs of real searchers whose start label is not its representative"),
+        ("eq_noneq", 150, "EqPath cases on universes with a non-equivalence unary rule inside an equivalence class"),
+        ("base_noneq", 100, "base-variant cases outside the documented precondition"),
+        ("verdict", 10, "base-variant pairs judged 'outside-precondition' (non-isomorphic, label maps matched)"),
+    ):
+        need = int(floor * scale)
+        out.append(("coverage floor: %s" % what, tally[key] >= need, "%d reached, floor %d of %d cases" % (tally[key], need, n)))
+    return out
 
 
 def shrink(case):
@@ -1169,8 +1276,8 @@ def shrink(case):
 
 TECHNIQUE = (
     "Coq proofs over an executable Gallina model of ParallelInfo's construction of the universes, of both finder "
-    "variants (first search, second search, the final walk _maps_are_matched, tree construction; + the proposed second "
-    "walk of the EqPath variant) and of the specification-construction stage (C02's extractor model); refutation "
+    "variants (first search, second search, the final walk _maps_are_matched, tree construction; + the second final "
+    "walk of the EqPath variant, fix 8a96a0c) and of the specification-construction stage (C02's extractor model); refutation "
     "witnesses for the pre-97589e3 code kept as history; the model is run (extracted, ExtrOcamlBasic only) against the "
     "real code on pairs of real searchers and on synthetic universes; an independent oracle decides validity (counts, "
     "closedness, genuineness, productivity) and isomorphism (own bisimulation, Isomorphism.check, Bijection.construct on "
@@ -1183,7 +1290,15 @@ LEVEL_TEXT = (
     "constructor classes, atoms and a permutation of the children at every node); C13_base_finder_never_raises + "
     "C13_base_finder_total and C13_eqpath_finder_never_raises + C13_eqpath_finder_total (both find() are total at the model "
     "level: no exception state, all searches and walks terminate; EqPath for every oracle answering all questions of "
-    "_eq_path_matches); C13_first_search_sound, C13_failure_memo_sound, C13_maps_use_rules; "
+    "_eq_path_matches); C13_eqpath_edges_checked + C13_ewalk_sound (the content of fix 8a96a0c: when the EqPath find() as it "
+    "is returns a pair, EVERY parent-pair -> child-pair edge of the two maps reachable from the roots was asked of "
+    "_eq_path_matches in the final walk and answered True, and its rules are a recorded matching) and "
+    "C13_matched_pair_eqpath_with_paths (under the contract of those answers the pair is matched INCLUDING the "
+    "non-equivalence rules inside the equivalence labels; false for pw = false, the code before the fix); "
+    "C13_eqpath_finder_total_tight (walk bound linear in the number of label pairs) and C13_harness_never_out_of_fuel "
+    "(the fuel run_c13 computes from the universes meets the termination bounds: status 2 is excluded on every compared "
+    "run, for every oracle answering all questions; tree construction included); "
+    "C13_first_search_sound, C13_failure_memo_sound, C13_maps_use_rules; "
     "C13_universe_well_formed (the universe ParallelInfo._construct_eq_label_rules builds from a rule database — incl. the "
     "skipped empty parent — consists of stored rules up to equivalence, root = representative of the start label); "
     "C13_spec_from_label_map (extractor invoked with the START label: closed rules dictionary with a rule for the start "
